@@ -54,8 +54,14 @@ def read_status(path):
 
 # --------------------------------------------------------------------------
 # sanitizer log parsing
-FRAME = re.compile(r"^\s*#(\d+) 0x[0-9a-f]+ in (\S+) (\S+)")
+FRAME = re.compile(r"^\s*#(\d+) 0x[0-9a-f]+ in (.+) (\S+)$")
 FRAME2 = re.compile(r"^\s*#(\d+) 0x[0-9a-f]+ in (\S+)")
+
+
+def _fn(name):
+    """function name without C++ argument list / template noise"""
+    name = name.split("(")[0].strip()
+    return re.sub(r"\s+", "_", name) or "?"
 
 
 def parse_san(text, repo):
@@ -85,7 +91,7 @@ def parse_san(text, repo):
         fm = FRAME.match(line)
         if fm:
             started = True
-            frames.append((fm.group(2), fm.group(3)))
+            frames.append((_fn(fm.group(2)), fm.group(3)))
             continue
         fm = FRAME2.match(line)
         if fm:
